@@ -18,7 +18,39 @@ REAL_E4 = dict(real=["etcd/server/storage/wal (create/save/cut/open/readall/repa
                stubbed=["durability: shadow durable image fed by the Fsync/Fdatasync hook; crash image = durable bytes "
                         "plus a seeded subset of unsynced 512-byte sectors"])
 
+REAL_E1 = dict(real=["server.Manager.Handle connection loop", "resp.ParseStream parser goroutine", "memdb executors, data structures, TTL timer goroutines",
+                     "memdb lock discipline (dblock/concurrentmap/pubsub/stream) with sync replaced by the cooperative vsync at build time",
+                     "util (hash, glob)"],
+               stubbed=["TCP accept loop and sockets (simconn implements net.Conn)", "wall clock (testing/synctest fake clock)",
+                        "goroutine scheduling at lock operations (seeded cooperative scheduler)",
+                        "blocking-pop poll period 100ms -> 100ms+1ns (overlay) so that tick and timeout never tie"])
+
 PROPS = {
+    "C01": dict(
+        engine="e1", level="exploration",
+        rule="one evaluation = one seeded run: 1-3 simulated clients each owning a key prefix run generated programs of "
+             "string/key commands (all SET options, numeric edge values, binary keys, keys of other types pre-seeded) with "
+             "fragmented and pipelined requests, fake-clock sleeps and co-tenants on colliding stripes; every reply is compared "
+             "with the reference model in lock-step; non-trivial = at least 5 replies checked; distinct = distinct trace hash",
+        state_measure="hash of the canonical final keyspace dump",
+        components=REAL_E1,
+        assumptions=["reference model written from the Redis 7 command reference; error text not compared",
+                     "SET onto a key of another type: overwrite and WRONGTYPE both accepted"],
+        quick=dict(wall=35), thorough=dict(wall=600),
+    ),
+    "C05": dict(
+        engine="e1", level="exploration",
+        phases=[dict(engine="e1", test="TestWorker")],
+        rule="one evaluation = one seeded run: 2-6 simulated clients x 2-7 commands over 1-3 shared keys, every lock "
+             "acquisition a tape-chosen scheduling point, history checked by porcupine against the reference model plus "
+             "auditor read-back and structural self-check; non-trivial = at least one preemption of an enabled task and one "
+             "context switch while a stripe was held; distinct = distinct hash of the full event trace",
+        state_measure="hash of the canonical final keyspace dump",
+        components=REAL_E1,
+        assumptions=["no writer preference modelled for RWMutex (every modelled schedule is a real one)",
+                     "true parallelism (torn words, concurrent map aborts) only in the race-sweep phase"],
+        quick=dict(wall=35), thorough=dict(wall=600),
+    ),
     "C15": dict(
         engine="e3", level="exploration",
         rule="one evaluation = one seeded run of 1-5 RawNodes under an adversarial event schedule "
